@@ -47,6 +47,26 @@ pub fn check_program(g: &Grammar, tree: &Tree, toks: &[Tok]) {
     let model = surface::resolve(&s, &[]);
     let (src, ranges) = tok::layout(toks);
     let real = tok::real_tokens(&src, toks, &ranges);
+    // A name is the whole text of its identifier: the real tokenizer, run on the program text, yields
+    // exactly the tokens the naming was written with (so what is resolved below is what a file holds).
+    match bind::guard(|| crate::tokenizer::tokenize(None, &src)) {
+        Err(m) => {
+            violation("tokenize-panic", &src, "tokens", &m);
+            return;
+        }
+        Ok(Err(e)) => {
+            violation("name-is-not-its-text", &src, "the tokens the program was written with", &bind::messages(&e).join(" | "));
+            return;
+        }
+        Ok(Ok(ts)) => {
+            let shown = |v: &[crate::token::Token]| v.iter().map(|t| format!("{:?}", t.variant)).collect::<Vec<_>>();
+            let (got, want) = (shown(&ts), shown(&real));
+            if got != want {
+                violation("name-is-not-its-text", &src, &format!("{want:?}"), &format!("{got:?}"));
+                return;
+            }
+        }
+    }
     bind::with_tokens(&src, &real, &[], 2, |f| match f {
         Front::Panic { message, .. } => violation("parse-panic", &src, "no panic", &message),
         Front::ParseErr { errors, .. } => {
@@ -152,7 +172,7 @@ impl Prop for C08 {
         // names that differ only after a multi-byte character, with characters of different widths
         // (1 + 2 + 1 bytes; 2 + 1 bytes against 2 + 3 bytes): a name is its whole text
         v.push(sweep("all namings over {aé1,aé2,_}, class alphabet", g.restrict(&c07::class_alphabet(), &[]), 1, tier.pick(5, 7), ["aé1", "aé2", "_"]));
-        v.push(sweep("all namings over {éa,é€,_}, let slice", lets.clone(), 8, tier.pick(9, 11), ["éa", "é€", "_"]));
+        v.push(sweep("all namings over {éa,é漢,_}, let slice", lets.clone(), 8, tier.pick(9, 11), ["éa", "é漢", "_"]));
         // groups nested in definitions and bodies, nothing but names: reaches two-member groups whose
         // first definition is itself a parenthesised group (15 tokens)
         let groups_only = g.restrict(&[K::Identifier, K::LeftParen, K::RightParen, K::Equals, K::Semicolon], &["application"]);
@@ -162,7 +182,7 @@ impl Prop for C08 {
     fn evidence(&self, tier: Tier) -> EvidenceSpec {
         EvidenceSpec {
             level: "exploration",
-            rule: "every derivation tree of grammar.y up to the bounds (class alphabet; let slice; binder slice; a slice of bare names, definitions and parentheses that reaches groups whose members are themselves parenthesised groups, 15/17 tokens) with every assignment of the names {a, b, _} (and {iff, é, _}: a keyword prefix and a non-ASCII letter; {_a, __, _} and {_a, a, _}: names that begin with the placeholder character; {aé1, aé2, _} and {éa, é€, _}: names of mixed character widths that differ only in their last character) to every identifier leaf: all nestings of binders, sibling scopes re-using a name, groups nested in definitions / annotations / bodies, every way to leave a name unbound or to re-bind one. The real parse is compared with a named scope resolver: predicted faults (kind and identifier) must all be reported; fault-free programs must be accepted with exactly the predicted de Bruijn index at every occurrence and a fresh hole for every `_`, or be rejected by the definition-order check alone. non-trivial = programs accepted with the predicted indices + programs rejected with the predicted faults".to_owned(),
+            rule: "every derivation tree of grammar.y up to the bounds (class alphabet; let slice; binder slice; a slice of bare names, definitions and parentheses that reaches groups whose members are themselves parenthesised groups, 15/17 tokens) with every assignment of the names {a, b, _} (and {iff, é, _}: a keyword prefix and a non-ASCII letter; {_a, __, _} and {_a, a, _}: names that begin with the placeholder character; {aé1, aé2, _} and {éa, é漢, _}: names of mixed character widths that differ only in their last character) to every identifier leaf: all nestings of binders, sibling scopes re-using a name, groups nested in definitions / annotations / bodies, every way to leave a name unbound or to re-bind one. The real parse is compared with a named scope resolver: predicted faults (kind and identifier) must all be reported; fault-free programs must be accepted with exactly the predicted de Bruijn index at every occurrence and a fresh hole for every `_`, or be rejected by the definition-order check alone. non-trivial = programs accepted with the predicted indices + programs rejected with the predicted faults".to_owned(),
             assumptions: vec![
                 "diagnostic *counts* after a first scoping error are not compared (follow-up diagnostics are allowed)".to_owned(),
                 "the definition-order diagnostics form a class of their own; their adequacy is C01's question".to_owned(),
